@@ -142,7 +142,7 @@ func runUnits(v *Verifier, units []*Unit, dir string, quickT, longT int, all boo
 			retry = append(retry, i)
 		}
 	}
-	if len(retry) > 0 && len(retry) <= 40 {
+	if len(retry) > 0 && len(retry) <= 16 {
 		sem2 := make(chan struct{}, 4)
 		var wg2 sync.WaitGroup
 		for _, i := range retry {
@@ -157,7 +157,7 @@ func runUnits(v *Verifier, units []*Unit, dir string, quickT, longT int, all boo
 				if strings.HasSuffix(full, ".light.smt2") || strings.HasSuffix(full, ".focus.smt2") {
 					return
 				}
-				nr := solve(full, longT, longT*3, false)
+				nr := solve(full, longT, longT*2, false)
 				nr.Tried = append(append([]string{}, first.Tried...), append([]string{"retry"}, nr.Tried...)...)
 				if nr.Verdict == "unsat" || nr.Verdict == "sat" {
 					nr.Solver += "/retry"
